@@ -233,6 +233,12 @@ def make_stub_ghe(evaluator: Evaluator, rec: Recorder):
             self.n_g = 3
             rec.add(kind="regen", n=self.nbh)
 
+        def __getattr__(self, name):
+            # lenient stand-in: attributes a changed GHE.size might keep on the object read as None instead of raising
+            if name.startswith("__"):
+                raise AttributeError(name)
+            return None
+
     return StubGHE
 
 
